@@ -84,6 +84,9 @@ func propC13(c *Ctx, r *Report) {
 					if pi > 0 && c.Tier != "thorough" && !(t == fct || t == tick["PEG"] || t == tick["USD"] || t == tick["RVN"]) {
 						continue
 					}
+					if pi > 0 && !e.repsQ[h] {
+						continue // zero-rate patterns on the class representatives; the +-150 windows re-check the non-zero pattern
+					}
 					in := int64(2) // pUSD
 					if t == 2 {
 						in = 3
